@@ -765,6 +765,33 @@ class CallMixin:
         st.env[f"SORTPERM{cnt}"], st.env[f"SORTINV{cnt}"], st.env[f"SORTSRC{cnt}"] = P, Q, src
         return res
 
+    def bi_copy(self, args, kw, st, node):
+        """copy.copy: shallow copy.  Objects: a new object of the same dynamic class whose fields hold the same
+        values (same referenced objects); lists / dicts of scalars: as deepcopy."""
+        v = args[0]
+        self.externals_used.add("copy.copy")
+        if is_obj(v.kind):
+            a = self.alloc(st)
+            new = V(Ref(ObjT(v.kind.target.cls)), a)
+            cls = v.kind.target.cls
+            related = [c for c in self.reg.classes if self.reg.is_subclass(c, cls) or self.reg.is_subclass(cls, c)]
+            for c in related:
+                for f, ks in self.reg.classes[c].fields.items():
+                    fk = parse_kind(ks, self.reg.opaque)
+                    if fk in (FN, NONE):
+                        continue
+                    self.H.fld_arr(st, f, fk.sort())
+            for name in list(set(st.heap) | set(self.H.base)):
+                if name.startswith("f_"):
+                    arr = st.heap.get(name, self.H.base.get(name))
+                    st.heap[name] = z3.Store(arr, a, self.sel(st, arr, v.term))
+            return new
+        if is_list(v.kind):
+            if v.kind.target.elem is None:
+                return self.new_list(st, None)
+            return self.new_list(st, self.elem_kind(v), self.llen(st, v), self.larr(st, v))
+        raise Unsupported(f"copy of {v.kind}", node)
+
     def bi_deepcopy(self, args, kw, st, node):
         """copy.deepcopy on the container shapes met in the units (assumed contract: fresh, disjoint, isomorphic)."""
         v = args[0]
